@@ -59,14 +59,14 @@ static bool MakeOffence(Source& s, int archive, K target, DynNode& repl, std::st
 	const bool text = archive == A_XML || archive == A_CSV;
 	std::vector<int> opts;   // 0 str, 1 arr, 2 obj, 3 null, 4 float 1.5, 5 out-of-range, 6 bin, 7 int, 8 array-of-bytes, 9 timestamp
 	if (IsInteger(target)) { opts = { 0, 3, 4, 5 }; if (archive != A_CSV) { opts.push_back(1); opts.push_back(2); } if (archive == A_MSGPACK) { opts.push_back(6); opts.push_back(9); opts.push_back(9); } if (archive == A_JSON) opts.push_back(9); }
-	else if (target == K::Ts) { opts = { 0, 3 }; if (archive != A_CSV) { opts.push_back(1); opts.push_back(2); } if (!text) opts.push_back(7); }
+	else if (target == K::Ts) { opts = { 0, 3 }; if (archive != A_CSV) { opts.push_back(1); opts.push_back(2); } if (!text) { opts.push_back(7); opts.push_back(4); opts.push_back(10); } }
 	else if (target == K::Bool) { opts = { 0 }; if (archive != A_CSV) { opts.push_back(1); opts.push_back(2); } }
 	else if (target == K::F32 || target == K::F64) { opts = { 0, 3 }; if (archive != A_CSV) { opts.push_back(1); opts.push_back(2); } }
 	else if (IsString(target)) { if (archive == A_CSV) return false; opts = { 1, 2, 3 }; if (!text) opts.push_back(7); }
 	else if (target == K::Arr) { opts = { 7, 0 }; if (archive != A_XML) opts.push_back(2); }
 	else if (target == K::Obj) { opts = { 7, 0 }; if (archive != A_XML) opts.push_back(1); }
 	else if (target == K::Bin) { opts = { 0 }; if (archive != A_XML) opts.push_back(2); if (!text) opts.push_back(7);   // XML cannot tell an object from an array of values
- if (archive == A_MSGPACK) opts.push_back(8); }
+ if (archive == A_MSGPACK) { opts.push_back(8); opts.push_back(3); } }
 	else return false;
 	const int o = opts[s.draw(sim::L_FAULT, static_cast<uint32_t>(opts.size()))];
 	switch (o)
@@ -93,6 +93,7 @@ static bool MakeOffence(Source& s, int archive, K target, DynNode& repl, std::st
 		break;
 	case 6: { repl = DynNode(K::Bin); const std::string b = Padded(s, "\x01\x02\x03"); repl.bin.assign(b.begin(), b.end()); name = "bin"; break; }
 	case 7: repl = DynNode(K::I32); repl.i32 = 7; name = "int"; break;
+	case 10: { static const int64_t wide[] = { 300, -200, 70000, -40000, 5000000000ll, -5000000000ll }; repl = DynNode(K::I64); repl.i64 = s.pick(sim::L_FAULT, wide); name = "wide_int"; break; }
 	case 9:
 		// before 1970 (MsgPack: timestamp 96 = ext 8) or after it (fixext)
 		repl = DynNode(K::Ts);
